@@ -41,9 +41,9 @@ def module_prologues(with_clients=False):
     return pro
 
 
-def generate(units=None, repo=None, no_body_hints=(), with_clients=False):
+def generate(units=None, repo=None, no_body_hints=(), with_clients=False, vacuity=False):
     entries = all_entries()
-    em = gen.build(entries, units, repo=repo, no_body_hints=no_body_hints)
+    em = gen.build(entries, units, repo=repo, no_body_hints=no_body_hints, extra_false_ensures=vacuity)
     prelude = open(os.path.join(ROOT, 'spec', 'prelude.rs'), encoding='utf-8').read()
     vs = open(os.path.join(ROOT, 'spec', 'vs.rs'), encoding='utf-8').read()
     text, line_map = gen.render(em, prelude, gen_shim() + '\n' + vs, module_prologues(with_clients or (units is None) or ('clients' in units)))
